@@ -13,7 +13,7 @@
     however often it retries ([C05_third_side_open_refused], and the crowded
     branches of C01_open_outcome / C07_claim_outcome). *)
 From MW Require Import Base Store Monad Usage Server Websocket Service Findings Inv Obs
-     ProtoFacts StepFacts SweepFacts NpFactsA MbFactsA MbFactsB CrowdFacts Inst_Params CrashLife TwoSidesEver DeliveryFacts.
+     ProtoFacts StepFacts SweepFacts NpFactsA MbFactsA MbFactsB CrowdFacts Inst_Params CrashLife TwoSidesEver DeliveryFacts RefuseFacts.
 Local Open Scope list_scope.
 
 (** over every non-crash event, for every mailbox id still alive: the side list only got longer at the end *)
@@ -140,3 +140,72 @@ Proof.
   split; [apply (StepFacts.run_spec kf2_cfg ltac:(reflexivity)); apply (StepFacts.init_spec kf2_cfg ltac:(reflexivity))|].
   vm_compute. reflexivity.
 Qed.
+
+(** * a third side's CLAIM, at every retry (quoted by type from RefuseFacts.v).  [third_of l side]: l has two entries and side is not among them *)
+
+(** the condition that selects `claimed` or `crowded` for a claim of an existing nameplate, with the exact database *)
+Theorem C05_claim_existing_exact : ltac:(let t := type of claim_existing_exact in exact t).
+Proof. exact claim_existing_exact. Qed.
+Check C05_claim_existing_exact.
+Print Assumptions C05_claim_existing_exact.
+
+(** a third side's claim: exactly [ack; error crowded]; no `claimed`, no `message` frame to anyone; subscriptions, messages, nameplates unchanged; its side rows ARE stored (KF2's door) *)
+Theorem C05_third_side_claim_refused : ltac:(let t := type of third_side_claim_refused in exact t).
+Proof. exact third_side_claim_refused. Qed.
+Check C05_third_side_claim_refused.
+Print Assumptions C05_third_side_claim_refused.
+
+(** exactly how the side lists change: appended at the end; a list that had two entries keeps its first two *)
+Theorem C05_third_side_claim_refused_lists : ltac:(let t := type of third_side_claim_refused_lists in exact t).
+Proof. exact third_side_claim_refused_lists. Qed.
+Check C05_third_side_claim_refused_lists.
+Print Assumptions C05_third_side_claim_refused_lists.
+
+(** `no matter how often it retries`: after ANY history (crashes included) in which the nameplate lives, the third side's claim on any connection is refused again *)
+Theorem C05_third_side_claim_refused_run : ltac:(let t := type of third_side_claim_refused_run in exact t).
+Proof. exact third_side_claim_refused_run. Qed.
+Check C05_third_side_claim_refused_run.
+Print Assumptions C05_third_side_claim_refused_run.
+
+(** (third side of the mailbox) *)
+Theorem C05_third_side_claim_refused_mb_run : ltac:(let t := type of third_side_claim_refused_mb_run in exact t).
+Proof. exact third_side_claim_refused_mb_run. Qed.
+Check C05_third_side_claim_refused_mb_run.
+Print Assumptions C05_third_side_claim_refused_mb_run.
+
+(** the same for open *)
+Theorem C05_third_side_open_refused_run : ltac:(let t := type of third_side_open_refused_run in exact t).
+Proof. exact third_side_open_refused_run. Qed.
+Check C05_third_side_open_refused_run.
+Print Assumptions C05_third_side_open_refused_run.
+
+(** also when the claim is cut short by a crash: never told the id, never sent a message *)
+Theorem C05_third_side_claim_never_told : ltac:(let t := type of third_side_claim_never_told in exact t).
+Proof. exact third_side_claim_never_told. Qed.
+Check C05_third_side_claim_never_told.
+Print Assumptions C05_third_side_claim_never_told.
+
+(** every `claimed` frame of every history goes to a side the two-sides bound counts (completeness of [told_in]) *)
+Theorem C05_claimed_frames_to_told : ltac:(let t := type of claimed_frames_to_told in exact t).
+Proof. exact claimed_frames_to_told. Qed.
+Check C05_claimed_frames_to_told.
+Print Assumptions C05_claimed_frames_to_told.
+
+(** ... a side among the first two of both side lists of that nameplate *)
+Theorem C05_claimed_frames_to_told_row : ltac:(let t := type of claimed_frames_to_told_row in exact t).
+Proof. exact claimed_frames_to_told_row. Qed.
+Check C05_claimed_frames_to_told_row.
+Print Assumptions C05_claimed_frames_to_told_row.
+
+(** a refused claim CAN enter a list that had fewer than two entries: the second side is then locked out (KF2, reached without a crash) *)
+Theorem C05_claim_refused_enters_nameplate_refuted : ltac:(let t := type of RefuseExamples.claim_refused_enters_nameplate_refuted in exact t).
+Proof. exact RefuseExamples.claim_refused_enters_nameplate_refuted. Qed.
+Check C05_claim_refused_enters_nameplate_refuted.
+Print Assumptions C05_claim_refused_enters_nameplate_refuted.
+
+(** non-vacuity *)
+Theorem C05_third_side_claim_refused_run_nonvacuous : ltac:(let t := type of RefuseExamples.third_side_claim_refused_run_nonvacuous in exact t).
+Proof. exact RefuseExamples.third_side_claim_refused_run_nonvacuous. Qed.
+Check C05_third_side_claim_refused_run_nonvacuous.
+Print Assumptions C05_third_side_claim_refused_run_nonvacuous.
+
